@@ -297,7 +297,9 @@ func (c *checker) blockFieldMutants(t blockTarget, other *consensusAPI.Block, ot
 				cc.Signatures[k].Signature = clone(cc.Signatures[k].Signature)
 				cc.Signatures[k].Signature[rng.IntN(len(cc.Signatures[k].Signature))] ^= 1 << rng.UintN(8)
 			})
-			cm("commit.sigs.timestamp", fmt.Sprintf("signature %d: timestamp+1ns", k), func(cc *cmttypes.Commit) { cc.Signatures[k].Timestamp = cc.Signatures[k].Timestamp.Add(time.Nanosecond) })
+			cm("commit.sigs.timestamp", fmt.Sprintf("signature %d: timestamp+1ns", k), func(cc *cmttypes.Commit) {
+				cc.Signatures[k].Timestamp = cc.Signatures[k].Timestamp.Add(time.Nanosecond)
+			})
 			cm("commit.sigs.address", fmt.Sprintf("signature %d: validator address altered", k), func(cc *cmttypes.Commit) {
 				cc.Signatures[k].ValidatorAddress = clone(cc.Signatures[k].ValidatorAddress)
 				cc.Signatures[k].ValidatorAddress[0] ^= 1
@@ -354,7 +356,7 @@ func (c *checker) blockMetaBytes(t blockTarget, stream uint64, coreStride int) {
 		m := *t.orig
 		m.Meta = bc.data
 		lab := labels[min(bc.off, len(labels)-1)]
-		coreToo := coreStride > 0 && (bc.off%coreStride == int(uint64(c.r.Seed)%uint64(coreStride)))
+		coreToo := coreStride > 0 && ((bc.off+bc.off/8)%coreStride == int(uint64(c.r.Seed)%uint64(coreStride)))
 		if coreToo {
 			// The Core returns the provider's object: give it its own copy.
 			m.Meta = clone(bc.data)
